@@ -377,7 +377,7 @@ class PTA:
         if f.kind == 'module':
             return ('G', f.module.name, name)
         if f.kind == 'classbody':
-            return ('F', self.cls_obj(f.cls), name)
+            return ('F', self.cls_obj(f.cls), mangle(f.cls.name, name))
         if name in self.locals_of(f):
             return ('L', self._vq if f is self._cur else self._fq(f), name)
         q = self._fq(f)
@@ -877,7 +877,7 @@ class PTA:
         if f.kind == 'function' and name in self.locals_of(f):
             return set(self.get(('L', self._vq, name)))
         if f.kind == 'classbody':
-            v = self.get(('F', self.cls_obj(f.cls), name))
+            v = self.get(('F', self.cls_obj(f.cls), mangle(f.cls.name, name)))
             if v or name in f.cls.methods:
                 if name in f.cls.methods:
                     return {self.func_obj(f.cls.methods[name])}
